@@ -113,7 +113,9 @@ impl<Wr: Write> XmlSerializer<Wr> {
     }
 
     fn find_uri(&self, name: &QualName) -> bool {
-        let mut found = false;
+        // An unprefixed name in no namespace needs no declaration, unless a default
+        // namespace is in force that has to be undone.
+        let mut found = name.prefix.is_none() && name.ns.is_empty();
         for stack in self.namespace_stack.0.iter().rev() {
             if let Some(Some(el)) = stack.get(&name.prefix) {
                 found = *el == name.ns;
@@ -124,7 +126,7 @@ impl<Wr: Write> XmlSerializer<Wr> {
     }
 
     fn find_or_insert_ns(&mut self, name: &QualName) {
-        if (name.prefix.is_some() || !name.ns.is_empty()) && !self.find_uri(name) {
+        if !self.find_uri(name) {
             if let Some(last_ns) = self.namespace_stack.0.last_mut() {
                 last_ns.insert(name);
             }
